@@ -330,6 +330,7 @@ def canonicalise(tree: ast.AST) -> ast.AST:
     _split_tuple_assigns(tree)
     _fold_append_loops(tree)
     _inline_adjacent_temporaries(tree)
+    _unroll_literal_loops(tree)
     ast.fix_missing_locations(tree)
     return tree
 
@@ -499,6 +500,60 @@ def _fold_while_counters(tree: ast.AST) -> None:
         ast.fix_missing_locations(fn)
 
 
+def _unroll_literal_loops(tree: ast.AST) -> None:
+    """`for T in (e1, e2, ...)` over a literal of at most four call-free elements, the body free of break / continue / else and not assigning T, is the body written out
+    once per element with T replaced by it: the inverse of merging repeated statements into a loop over their operands."""
+    for fn in ast.walk(tree):
+        if not isinstance(fn, (ast.FunctionDef, ast.AsyncFunctionDef)):
+            continue
+        changed = False
+        for holder in ast.walk(fn):
+            for field in ('body', 'orelse', 'finalbody'):
+                st = getattr(holder, field, None)
+                if not isinstance(st, list):
+                    continue
+                k = 0
+                while k < len(st):
+                    lp = st[k]
+                    k += 1
+                    if not isinstance(lp, ast.For) or lp.orelse or not isinstance(lp.iter, (ast.Tuple, ast.List)) or not 1 <= len(lp.iter.elts) <= 4:
+                        continue
+                    if any(isinstance(x, (ast.Break, ast.Continue, ast.FunctionDef, ast.Lambda, ast.Yield, ast.YieldFrom)) for b in lp.body for x in ast.walk(b)):
+                        continue
+                    tnames = [lp.target.id] if isinstance(lp.target, ast.Name) else \
+                        ([e.id for e in lp.target.elts] if isinstance(lp.target, ast.Tuple) and all(isinstance(e, ast.Name) for e in lp.target.elts) else None)
+                    if tnames is None:
+                        continue
+                    if any(isinstance(x, ast.Name) and x.id in tnames and isinstance(x.ctx, (ast.Store, ast.Del)) for b in lp.body for x in ast.walk(b)):
+                        continue
+                    # the names are not read after the loop
+                    rows = []
+                    ok = True
+                    for e in lp.iter.elts:
+                        vals = [e] if isinstance(lp.target, ast.Name) else (list(e.elts) if isinstance(e, (ast.Tuple, ast.List)) and len(e.elts) == len(tnames) else None)
+                        if vals is None or not all(all(isinstance(x, _PURE_NODES) for x in ast.walk(v)) for v in vals) or any(isinstance(v, ast.Starred) for v in vals):
+                            ok = False
+                            break
+                        rows.append(dict(zip(tnames, vals)))
+                    if not ok:
+                        continue
+                    if any(isinstance(x, ast.Name) and x.id in tnames for b in st[k:] for x in ast.walk(b)):
+                        continue
+                    out: tp.List[ast.stmt] = []
+                    for row in rows:
+                        class S(ast.NodeTransformer):
+                            def visit_Name(self, node):
+                                if node.id in row and isinstance(node.ctx, ast.Load):
+                                    return ast.copy_location(copy.deepcopy(row[node.id]), node)
+                                return node
+                        out.extend(S().visit(copy.deepcopy(b)) for b in lp.body)
+                    st[k - 1:k] = out
+                    k += len(out) - 1
+                    changed = True
+        if changed:
+            ast.fix_missing_locations(fn)
+
+
 def _split_tuple_assigns(tree: ast.AST) -> None:
     '''`a, b = x, y` (both sides tuples of one length, no target name read on the right) is `a = x; b = y`.'''
     for fn in ast.walk(tree):
@@ -593,10 +648,10 @@ def _inline_adjacent_temporaries(tree: ast.AST) -> None:
                     a, nxt = st[i], st[i + 1]
                     if isinstance(a, ast.Assign) and len(a.targets) == 1 and isinstance(a.targets[0], ast.Name) and not isinstance(a.value, ast.Constant) \
                             and not any(isinstance(x, (ast.Yield, ast.YieldFrom, ast.Await, ast.NamedExpr)) for x in ast.walk(a.value)) \
-                            and isinstance(nxt, (ast.Assign, ast.Expr, ast.Return, ast.AugAssign, ast.If)):
+                            and isinstance(nxt, (ast.Assign, ast.Expr, ast.Return, ast.AugAssign, ast.If, ast.For)):
                         t = a.targets[0].id
                         if t not in params and stores.get(t) == 1 and loads.get(t) == 1:
-                            reads = [x for x in ast.walk(nxt.test if isinstance(nxt, ast.If) else nxt) if isinstance(x, ast.Name) and x.id == t and isinstance(x.ctx, ast.Load)]
+                            reads = [x for x in ast.walk(nxt.test if isinstance(nxt, ast.If) else nxt.iter if isinstance(nxt, ast.For) else nxt) if isinstance(x, ast.Name) and x.id == t and isinstance(x.ctx, ast.Load)]
                             scoped = any(isinstance(x, (ast.Lambda, ast.ListComp, ast.SetComp, ast.DictComp, ast.GeneratorExp)) and any(y is reads[0] for y in ast.walk(x))
                                          for x in ast.walk(nxt)) if reads else True
                             pure = all(isinstance(x, _PURE_NODES) for x in ast.walk(a.value))
@@ -606,6 +661,8 @@ def _inline_adjacent_temporaries(tree: ast.AST) -> None:
                                 nv = getattr(nxt, 'value', None)
                                 if isinstance(nv, (ast.Yield, ast.YieldFrom, ast.Await)) and nv.value is not None:
                                     nv = nv.value          # `yield from zip(labels, results)`
+                                if isinstance(nxt, ast.For):
+                                    nv = nxt.iter
                                 if isinstance(nxt, ast.If):
                                     # `flag = <test>` / `if [not] flag [and ...]:` — the first operand evaluated
                                     nv = nxt.test
@@ -626,6 +683,8 @@ def _inline_adjacent_temporaries(tree: ast.AST) -> None:
                                         return node
                                 if isinstance(nxt, ast.If):
                                     nxt.test = S().visit(nxt.test)
+                                elif isinstance(nxt, ast.For):
+                                    nxt.iter = S().visit(nxt.iter)
                                 else:
                                     S().visit(nxt)
                                 del st[i]
